@@ -27,6 +27,7 @@ type FakeTty struct {
 	cb       func()
 	LogReads bool
 	WsErr    error // if set, WindowSize fails
+	OnUnnotify func() // if set: called once, from the next NotifyResize(nil), outside the tty's own lock
 	LogWS    bool  // log WindowSize calls, and Read calls entered while the tty is stopped (engine modes, C04)
 }
 
@@ -63,13 +64,22 @@ func (t *FakeTty) Drain() error {
 }
 func (t *FakeTty) NotifyResize(cb func()) {
 	t.mu.Lock()
-	defer t.mu.Unlock()
 	if cb == nil {
 		t.log("NotifyResize(nil)")
 	} else {
 		t.log("NotifyResize(fn)")
 	}
 	t.cb = cb
+	hook := t.OnUnnotify
+	if cb != nil {
+		hook = nil
+	} else {
+		t.OnUnnotify = nil // one shot
+	}
+	t.mu.Unlock()
+	if hook != nil {
+		hook() // an application call that lands while a Suspend / Fini is in progress (the library holds no screen lock here)
+	}
 }
 func (t *FakeTty) WindowSize() (tcell.WindowSize, error) {
 	t.mu.Lock()
